@@ -96,6 +96,9 @@ func (withdrawTx) Validate(ctx *action.Context, tx action.SignedTx) (bool, error
 		return false, action.ErrStakeAddressMismatch
 	}
 
+	if !draw.Stake.Value.BigInt().IsInt64() {
+		return false, action.ErrInvalidAmount
+	}
 	coin := draw.Stake.ToCoinWithBase(ctx.Currencies)
 	if coin.LessThanEqualCoin(coin.Currency.NewCoinFromInt(0)) {
 		return false, action.ErrInvalidAmount
